@@ -521,6 +521,54 @@ impl WriteBuffer {
     }
 }
 
+#[cfg(feature = "verif")]
+impl WriteBuffer {
+    pub fn verif_shards(&self) -> usize {
+        self.sharded_buffers.len()
+    }
+
+    pub fn verif_shard_of(&self, key: &[u8]) -> usize {
+        self.get_shard_id(key)
+    }
+
+    /// (entries still buffered per shard, entries waiting in the retirement queue)
+    pub fn verif_pending(
+        &self,
+    ) -> (
+        Vec<crate::verif::PendingDump>,
+        Vec<crate::verif::PendingDump>,
+    ) {
+        fn dump(shard: usize, entry: &WriteEntry) -> crate::verif::PendingDump {
+            crate::verif::PendingDump {
+                shard,
+                op: match entry.op {
+                    Operation::Insert => "insert",
+                    Operation::Update => "update",
+                    Operation::Delete => "delete",
+                    _ => "other",
+                },
+                key: entry.record.key.clone(),
+                timestamp: entry.record.timestamp,
+                sector: entry.record.sector.load(Ordering::Acquire),
+                work_status: entry.work_status.load(Ordering::Acquire),
+                ptr: Arc::as_ptr(&entry.record) as usize,
+            }
+        }
+        let mut buffered = Vec::new();
+        for (shard, buffer) in self.sharded_buffers.iter().enumerate() {
+            buffered.extend(buffer.buffer.lock().iter().map(|entry| dump(shard, entry)));
+        }
+        let retirements = self
+            .retirement_queue
+            .pending
+            .lock()
+            .iter()
+            .map(|entry| dump(usize::MAX, entry))
+            .collect();
+        (buffered, retirements)
+    }
+}
+
 /// Background worker for processing write buffer flushes
 fn write_buffer_worker(ctx: WorkerContext, flush_rx: Receiver<FlushRequest>) {
     let format = get_format_ref(ctx.format_version);
